@@ -32,7 +32,9 @@ let () =
   let tbl = Hashtbl.create 1024 in
   List.iter (fun l -> match String.index_opt l ' ' with
     | Some i -> (match int_of_string_opt (String.sub l 0 i) with
-                 | Some n -> if not (Hashtbl.mem tbl n) then Hashtbl.add tbl n (String.sub l (i + 1) (String.length l - i - 1))
+                 | Some n -> let rest = String.sub l (i + 1) (String.length l - i - 1) in
+                             let is_pre = String.length rest >= 4 && String.sub rest 0 4 = "pre " in
+                             if not is_pre && not (Hashtbl.mem tbl n) then Hashtbl.add tbl n rest
                  | None -> ())
     | None -> ()) out;
   let dumps = Hashtbl.create 16 in
